@@ -121,6 +121,17 @@ func check(c Case) (r pbt.Result) {
 			r.Label("humidity-extreme")
 		}
 	}
+	// the derived variables are functions of one (temperature, humidity, elevation) point: a point run on
+	// its own must give what it gives inside any series
+	for i := range Ts {
+		o1, _ := simref.Run1("ClimateVariables", simref.Cell{{c.Elev}}, [][]float64{{Ts[i]}, {Hs[i]}}, nil)
+		for k, name := range []string{"vaporPressure", "dewPoint", "wetBulb", "deltaT"} {
+			if !simref.SameBits(o1[k][0], out[k][i]) {
+				r.Failf("T=%.17g RH=%.17g elev=%v: %s = %.17g when the point is run alone but %.17g inside a series of %d points (humidities %v)", Ts[i], Hs[i], c.Elev, name, o1[k][0], out[k][i], len(Ts), Hs)
+				return
+			}
+		}
+	}
 	for k, p := range c.Pairs {
 		a, b := 2*k, 2*k+1
 		switch p.Kind {
